@@ -1,1 +1,40 @@
-fn main() { let vm = emulator_8086_lib::VM::new(); println!("{}", serde_json::json!({"cs": vm.arch.cs})); }
+//! `vh` - conformance harness binding spec/*.tla to the real emulator_8086 library.
+//!   vh gen <PROP> --tier quick|thorough --seed N --out DIR --shards K
+//! writes ndjson traces (validated by spec/TraceStep.tla etc.) and DIR/gen_meta.json.
+mod alu;
+mod ast;
+mod checks;
+mod exec;
+mod forms;
+mod gen;
+
+fn arg(args: &[String], name: &str, def: &str) -> String {
+    match args.iter().position(|a| a == name) {
+        Some(i) if i + 1 < args.len() => args[i + 1].clone(),
+        _ => def.to_string(),
+    }
+}
+
+fn main() {
+    // panics of the code under test are data: keep stderr quiet
+    std::panic::set_hook(Box::new(|_| {}));
+    let args: Vec<String> = std::env::args().collect();
+    if args.len() < 2 {
+        eprintln!("usage: vh gen <PROP> [--tier T] [--seed N] [--out DIR] [--shards K]");
+        std::process::exit(2);
+    }
+    match args[1].as_str() {
+        "gen" => {
+            let prop = args[2].clone();
+            let tier = arg(&args, "--tier", "quick");
+            let seed: u64 = arg(&args, "--seed", "1").parse().unwrap_or(1);
+            let out = arg(&args, "--out", "/verif/work/tmp");
+            let shards: usize = arg(&args, "--shards", "16").parse().unwrap_or(16);
+            checks::generate(&prop, &tier, seed, &out, shards);
+        }
+        other => {
+            eprintln!("unknown subcommand {}", other);
+            std::process::exit(2);
+        }
+    }
+}
